@@ -1,6 +1,7 @@
 import WzVerif.Driver.Proto
 import WzVerif.Model.Http
 import WzVerif.Model.Date
+import WzVerif.Driver.PyPrelude
 namespace Wz.Driver.C06
 open Wz Wz.Proto Wz.Http
 
@@ -242,6 +243,6 @@ def handle : Handler
       | some w => some (pair w (outOpt toString (Wz.Date.parseDate w)))
       | none => some "EXC:OverflowError"
     | _, _, _, _, _, _, _ => some badArgs
-  | _, _ => none
+  | cmd, args => Wz.Driver.PyPrelude.handle cmd args  -- `pre.*`: primitives of Util/PyPrelude
 
 end Wz.Driver.C06
